@@ -128,6 +128,7 @@ func checkC02(c *Ctx, r *Report) {
 	r.floor("R2.2", 10)
 	r.floor("R2.3", 4)
 	r.floor("R2.4", 20)
+	r.floor("R2.5", 2)
 	crc := c.fnMust("packet", "CRC16")
 	for _, pi := range packetParsers(c, "packet", false) {
 		c02RoundTrip(c, r, pi, crc, false)
@@ -138,6 +139,9 @@ func checkC02(c *Ctx, r *Report) {
 	for _, name := range []string{"ParseTCPResponse", "ParseRTUResponse"} {
 		c02Dispatcher(c, r, c.fnMust("packet", name), name == "ParseTCPResponse", false)
 	}
+	// R2.5: an exception frame can only become a typed error if the clients hand the recogniser
+	// everything received so far (a fragmented exception reply must still be recognised)
+	clientLoopItems(c, r, "R7.3", "R2.5", "the recogniser sees received[0:total]", "runs in every iteration", "returned as *ClientError wrapping")
 	r.assumption("well-formed response frame: (TCP) protocol id 0 and MBAP length = len-6; function-code byte = the constant of the dispatcher case; FC5 value is 0x0000 or 0xFF00; fixed-size responses (FC5, 6, 15, 16) have their specified length; FC17 replies (no overall byte count) are at most one ADU (260/256 bytes) long")
 	r.assumption("RTU: the frame's trailer is the CRC of its body (checked by ParseRTUResponseWithCRC, C03 R3.2); CRC16 uninterpreted, equal on equal bytes")
 	r.assumption("slice lengths are below 2^31; int is 64 bits wide")
